@@ -157,10 +157,21 @@ def check_pixel_times(ctx, o, descr, fovs, rpy, t, layout, dt_s):
         sg1 = geoloc.ScanGeometry(fovs[:, j:j + 1], np.zeros(1))
         with np.errstate(invalid="ignore"):
             one = np.asarray(geoloc.compute_pixels(o, sg1, times[j:j + 1], rpy)).reshape(3)
-        # (1 m: the nadir direction comes from geodetic_lat, whose np.allclose exit leaves up to 1.2e-7 rad (theorem
-        #  geodeticLat_result_close_to_fixpoint); in a batch the joint exit may run a pass more than for one pixel alone, which
-        #  moves the pixel by up to ~0.2 m at 1500 km slant range.  A pixel placed at another pixel's time is off by >= 40 m.)
-        if not np.allclose(pix[:, j], one, rtol=0, atol=1e-3, equal_nan=True):
+        # The nadir direction comes from geodetic_lat, whose np.allclose exit leaves up to 1.2e-7 rad (theorem
+        # geodeticLat_result_close_to_fixpoint); in a batch the joint exit may run a pass more than for one pixel alone,
+        # so the two view directions may differ by up to 2.4e-7 rad, which moves the pixel by (slant range) x 2.4e-7 /
+        # cos(incidence angle) on the ground (metres for oblique views of high orbits).  A pixel placed at another pixel's
+        # time is off by the satellite's motion in between (>= 40 m for 50 ms).
+        tol_km = 1e-6
+        if not (np.any(np.isnan(one)) or np.any(np.isnan(pix[:, j]))):
+            pj = np.asarray(o.get_position(times[j], normalize=False)[0], dtype=float)
+            ray = one - pj
+            rng_km = float(np.linalg.norm(ray))
+            nrm = one * np.array([1 / A_E ** 2, 1 / A_E ** 2, 1 / B_E ** 2])
+            nrm = nrm / np.linalg.norm(nrm)
+            cos_inc = abs(float(ray @ nrm)) / rng_km if rng_km > 0 else 1.0
+            tol_km += 6e-7 * rng_km / max(cos_inc, 0.02)
+        if not np.allclose(pix[:, j], one, rtol=0, atol=tol_km, equal_nan=True):
             ctx.violation("pixel_not_at_its_time", dict(descr, fovs=fovs.tolist(), rpy=list(rpy), layout=layout, dt_s=dt_s, index=j),
                           list(pix[:, j]), "the pixel computed alone at its own time: %r" % list(one), site="geoloc.compute_pixels")
             bad += 1
